@@ -54,7 +54,7 @@ def body():
     c = Check("C08", "model_checking")
     # --- the specification on its own ---
     c.add_model(vlib.tlc_model("MCTls", "MCTls_live", coverage=False), "Tls honest liveness (FairSpec => <>BothDone), 3 protocols x auth modes")
-    c.add_model(vlib.tlc_model("MCTls", "MCTls_cred"), "Tls Budget=0: Agreement/Auth invariants over all credential cases")
+    c.add_model(vlib.tlc_model("MCTls", "MCTls_cred", allow_zero=("CSkipCR", "CReject", "SReject")), "Tls Budget=0: Agreement/Auth invariants over all credential cases")
     c.add_model(vlib.tlc_model("TlsStream", coverage=False), "TlsStream MaxPlain=3 MaxWrite=5 MaxCap=4 MaxBytes=8, liveness EventuallyAll")
     # --- the implementation against the specification ---
     scns = scenarios(c)
